@@ -90,11 +90,11 @@ PROPS["C20"] = {
 PROPS["C05"] = {
     "explanation": "Bounded symbolic execution (gosx) of the real linux.parseRoutes, diffRoutes, (*State).parseIPTables, normalizeIPTables, diffIPTables, getIPTablesConfig. Routes: all pairs of route sets over 4 destinations x 3 hops in the device's and Netspoc's spellings; the emitted add/del commands are executed on a route-set model; end state must be exactly the target, no add of an active / del of an inactive route, second compare silent. iptables: abstract rules (solver-chosen fields) are rendered in Netspoc spelling and in iptables-save spelling with solver-chosen spelling variants; 'unchanged' must be reported exactly for equal abstract rulesets, the restore file must equal the target, the target must compare equal to its own kernel spelling.",
     "bounds": {"quick": "routes: n,m<=2 per side; iptables: one table, chain INPUT, <=1 rule per side",
-               "thorough": "routes: n,m<=3; iptables as quick (two rules per side did not finish within two hours, with or without the SYN match, and is not registered)"},
+               "thorough": "routes as quick (n,m<=3 ran clean once in about 100 minutes, 1.55 million paths, before the destination menu was changed to nested networks; it is not registered because it was not re-run); iptables as quick (two rules per side did not finish within two hours, with or without the SYN match, and is not registered)"},
     "outside": "IPv6 tables, several tables/chains with different contents, spellings outside the menus (xmark/mark, log-level), 'ip route' attributes other than via/dev, ApplyCommands dialogue (see C09)",
     "selftest": "linux", "selftest_thorough": "linux",
     "runs": [
-        {"entry": M + "/pkg/linux.VerifRoutes", "quick": {"N": "2"}, "thorough": {"N": "3"},
+        {"entry": M + "/pkg/linux.VerifRoutes", "quick": {"N": "2"}, "thorough": {"N": "2"},
          "classes": ["C05"], "covers": ["replace in one transaction", "kernel/link-scope route on device", "no change reported"]},
         {"entry": M + "/pkg/linux.VerifIPTables", "quick": {"N": "1"}, "thorough": {"N": "1"}, "extra": {"maxpaths": 5000000},
          "covers": ["iptables reported as unchanged", "iptables difference reported"]},
@@ -103,7 +103,7 @@ PROPS["C05"] = {
 PROPS["C14"]["runs"] = PROPS["C14"]["runs"] + [
     {"entry": M + "/pkg/linux.VerifRoutes", "quick": {"N": "2"}, "thorough": {"N": "2"}, "classes": ["C14"]},
 ]
-PROPS["C14"]["bounds"] = {"quick": PROPS["C02"]["bounds"]["quick"] + "; Linux routes n,m<=2", "thorough": PROPS["C02"]["bounds"]["thorough"] + "; Linux routes n,m<=2 (n,m<=3 is run under C05)"}
+PROPS["C14"]["bounds"] = {"quick": PROPS["C02"]["bounds"]["quick"] + "; Linux routes n,m<=2", "thorough": PROPS["C02"]["bounds"]["thorough"] + "; Linux routes n,m<=2"}
 
 ASA_ACL = M + "/pkg/asa.VerifASAACL"
 ASA_GRAPH = M + "/pkg/asa.VerifASAGraph"
